@@ -18,7 +18,8 @@ RULE = (
 IDENTS = ["A", "B", "core", "api", "db", "web_ui", "M1", "svc", "x", "util"]
 ARROWS_R = ["-->", "->", "-uses->", "-depends_on->"]
 ARROWS_L = ["<--", "<-", "<-uses-", "<-calls-"]
-NOISE = ["This is documentation.", "' a comment", "title demo", "", "some [text] here"]
+NOISE = ["This is documentation.", "' a comment", "title demo", "", "some [text] here", "[outside]", "component outsider", "outsider --> [outside]",
+         "see [outside] as o"]
 
 
 def gen_diagram(rng):
@@ -87,7 +88,8 @@ def gen_diagram(rng):
     text = "\n".join(pre + ["@startuml"] + lines + ["@enduml"] + post)
     if rng.random() < 0.3:
         text += "\n"
-    return {"text": text, "components": sorted(names), "arrows": sorted(arrows), "alias_refs": alias_refs}
+    # the file may be saved with Windows line endings: reading it in text mode gives the same text
+    return {"text": text, "components": sorted(names), "arrows": sorted(arrows), "alias_refs": alias_refs, "crlf": rng.random() < 0.15}
 
 
 def impl_parse(text) -> str:
@@ -104,7 +106,7 @@ def impl_parse(text) -> str:
 
 
 def _impl(case):
-    return impl_parse(case["text"])
+    return impl_parse(case["text"].replace("\n", "\r\n") if case.get("crlf") else case["text"])
 
 
 def judge(ctx, stream, cases):
